@@ -428,7 +428,7 @@ func init() {
 		BudgetThor:  25 * time.Minute,
 		Kind:        "schedules",
 		Rule: "all rule sets of 1..3 rules over {W: writes its local t then reads it back, R: reads t without assigning, RW: reads t before first write} plus sets with WO (the local holds an object made for this execution by an injected function and is read through a method of it) plus sets with a writer that fails after writing (rule-level panic / ordinary error) followed by readers in every salience order x all 21 engine models (x policy) x two consecutive calls on one engine (each call with a data context of its own; and, under the default schedule, both calls on one builder and data context); goroutine-spawning models under every schedule with <=2 (thorough 3) deviations from the default scheduler (delay bounding); plus two overlapping pool requests running the same rules with request-unique values; plus call histories in which the same name is a rule local in one call and an injected (shared) name in the next, engine and pool; " +
-			"plus locals bound to injected values of every shape that Go copies on assignment (scalar, string, struct value, array, array element of a slice): a later store into the injected object - by the same rule or by another rule of the call - must not show through the local; oracle: R/RW never obtain a value (no result entry, error), every W returns and reads back its own value, updates of the shared injected object are all present",
+			"plus rules whose only local is a forRange key (no assignment anywhere in the rule) followed by rules and calls that read that name; plus locals bound to injected values of every shape that Go copies on assignment (scalar, string, struct value, array, array element of a slice): a later store into the injected object - by the same rule or by another rule of the call - must not show through the local; oracle: R/RW never obtain a value (no result entry, error), every W returns and reads back its own value, updates of the shared injected object are all present",
 		Assume: []string{"strict saliences", "each rule updates its own field of the shared injected object (a concurrent read-modify-write of one host field is the host's business)"},
 		Run: func(c *hx.Ctx) {
 			cfgs, bounds := c15Configs(c.Thorough())
@@ -453,6 +453,7 @@ func init() {
 			if c.Shard == 0 {
 				for _, m := range []string{"Execute", "ExecuteConcurrent", "ExecuteMixModel"} {
 					hx.Explore("C15", aliasScenario(m), hx.ExploreCfg{Bound: 0, DefaultOnly: true}, c.Res)
+					hx.Explore("C15", keyScenario(m), hx.ExploreCfg{Bound: 0, DefaultOnly: true}, c.Res)
 				}
 			}
 			if c.Shard == 0 {
@@ -579,6 +580,77 @@ func aliasScenario(model string) *hx.Scenario {
 			}
 			if st.g.Arr != [2]int64{99, 43} && model == "Execute" {
 				bad("host-effect", fmt.Sprintf("host array is %v, want [99 43]", st.g.Arr))
+			}
+			return
+		},
+	}
+}
+
+// ---- a rule whose only local is the key of a forRange (it contains no assignment at all) ----
+
+const keyRules = `
+rule "k0" salience 9 begin
+  forRange t := L {
+    see(0, t)
+  }
+end
+rule "k1" salience 5 begin
+  see(1, t)
+end
+rule "k2" salience 1 begin
+  forRange u := L {
+    see(2, u)
+  }
+  see(3, t)
+end
+`
+
+type keyState struct {
+	seen [][2]int64
+	errs [2]error
+	pan  interface{}
+}
+
+func keyScenario(model string) *hx.Scenario {
+	src := compileCached(keyRules)
+	return &hx.Scenario{
+		Name: "c15key",
+		Cfg:  model,
+		New:  func() interface{} { return &keyState{} },
+		Body: func(s interface{}) {
+			st := s.(*keyState)
+			see := func(tag, v int64) {
+				vsched.Obs()
+				if !vsched.Aborted() {
+					st.seen = append(st.seen, [2]int64{tag, v})
+				}
+			}
+			g := engine.NewGengine()
+			m := gx.ModelByName(model)
+			for call := 0; call < 2 && st.pan == nil; call++ {
+				rb := gx.Fresh(src, nil, map[string]interface{}{"L": []int64{7, 8}, "see": see})
+				st.errs[call], st.pan = gx.CallGuarded(func() error { return m.Call(g, rb, gx.Params{B: true}) })
+			}
+		},
+		Check: func(s interface{}, ex *vsched.Exec) (fs []hx.Finding) {
+			st := s.(*keyState)
+			bad := func(sig, msg string) {
+				fs = append(fs, hx.Finding{Sig: "c15:key:" + model + ":" + sig, Msg: msg + fmt.Sprintf("\n  model=%s rules:%s  observed (tag,value)=%v errors=[%v %v]", model, keyRules, st.seen, st.errs[0] != nil, st.errs[1] != nil)})
+			}
+			if ex.Verdict != "" || st.pan != nil {
+				bad("did-not-complete", fmt.Sprintf("verdict %q panic %v %s", ex.Verdict, st.pan, firstLine(ex.Crash)))
+				return
+			}
+			for _, o := range st.seen {
+				if o[0] == 1 || o[0] == 3 {
+					bad("key-leaked", fmt.Sprintf("a rule that never defined `t` read the value %d from it: the forRange key of another rule execution is visible", o[1]))
+					return
+				}
+			}
+			for i, e := range st.errs {
+				if e == nil {
+					bad("no-error", fmt.Sprintf("call %d: rules k1 and k2 read the undefined name `t`, yet the call returned no error", i+1))
+				}
 			}
 			return
 		},
